@@ -80,6 +80,12 @@ ShareDelivery(r, C) ==
      \A p \in DOMAIN r.probes :
         (IsSetup(p) /\ p \notin left) => \A i \in 1..Len(em) : SeqContains(ItemsP(r.probes[p]), em[i])
 
+(* C11 (thread part): the source of a published observable is subscribed by connect(), once, and by nothing else *)
+PublishOnce(r, C) ==
+  LET ss == AllStims(C.threads)
+      connects == Len(SelectSeq(ss, LAMBDA x : x.k = "connect")) IN
+  Op(C.root) = "publish" => r.cnt[CntDefer] = (IF connects > 0 THEN 1 ELSE 0)
+
 Judge(r) ==
   LET C == Cases[r.c]
       chk == C.checks
@@ -91,7 +97,7 @@ Judge(r) ==
      (* called after its unsubscribe() returned is not one of "the current subscribers"                                 *)
      \o f(Op(C.root) = "subject" /\ (r.stuck \/ r.fault # "" \/ r.late), "C06")
      \o f(~r.stuck /\ r.fault = "" /\ ~FlatComplete(r, C), "C05")
-     \o f(~r.stuck /\ r.fault = "" /\ ~ShareDelivery(r, C), "C11")
+     \o f(~r.stuck /\ r.fault = "" /\ ~(ShareDelivery(r, C) /\ PublishOnce(r, C)), "C11")
      \o f(r.late, "C02")
      \o f(r.late \/ r.stuck \/ r.fault # "", "C19")      \* a cancelled task's body (or what it subscribed) acts after unsubscribe() returned
      \o f(r.cnt[CntFin] # 1, "C15")
